@@ -7,7 +7,7 @@ LEAN_MODULE = "Frost.Props.C18"
 THEOREMS = ["Frost.C18.evenKp_sharing", "Frost.C18.evenKp_even", "Frost.C18.tweakKp_sharing",
             "Frost.C18.tweakKp_outputKey", "Frost.C18.tweakPkp_outputKey", "Frost.C18.post_dkg_tweak",
             "Frost.C18.trShareOk_iff", "Frost.C18.taproot_sign_correct", "Frost.C18.taproot_culprits_exact",
-            "Frost.C18.untweaked_iff", "Frost.SignSession.tr_sign_eq", "Frost.SignSession.tr_aggregate_eq"]
+            "Frost.C18.untweaked_iff", "Frost.SignSession.tr_sign_eq", "Frost.SignSession.tr_aggregate_eq", "Frost.C18.taproot_verify_iff", "Frost.C18.taproot_mirror_rejected"]
 RULE = ("one case = one Taproot signing session (keys from dealer or DKG, n, t, signer set, message, merkle root absent / key-path-only / empty / 32 bytes / arbitrary) with BIP-340 verification by libsecp256k1 and by the Lean reference verifier, plus a cheater attempt; "
         "non-trivial = the 64-byte signature was produced and verified by both independent verifiers; distinct = hash of (keys, commitments, message, root); the generator re-seeds until each of the 8 (internal-key, output-key, group-commitment) parity combinations occurred at least N times")
 ASSUMPTIONS = ["'does not verify under the untweaked key' holds unless two hash values coincide (exact iff proved: untweaked_iff)",
